@@ -169,6 +169,17 @@ def run(ctx):
     rule_plumbing(ctx)
     rule_range(ctx)
     X.rule_min_one_frame(ctx)
+
+    def frame_loop(f):
+        return next((n for n in own_nodes(f.node) if isinstance(n, ast.For) and isinstance(n.iter, ast.Call) and norm(n.iter.func) == "range"
+                     and n.iter.args and norm(n.iter.args[-1]).endswith(".shape[1]")), None)
+
+    def closing_scan(f, loop):
+        opened = {norm(a.targets[0]) for a in own_statements(f.node.body) if isinstance(a, ast.Assign) and isinstance(a.value, ast.Dict) and not a.value.keys}
+        return next((s for s in loop.body if isinstance(s, ast.For) and isinstance(s.iter, ast.Name) and s.iter.id in opened), None) if loop else None
+    X.rule_every_round_passes(ctx, f"{M}:pianoroll_to_notearray", frame_loop, closing_scan, "every frame closes the notes that stopped sounding",
+                              "some path through the frame loop of pianoroll_to_notearray skips the scan of the open notes: a note followed by a frame "
+                              "the path skips (e.g. an all-silent frame) is not closed there and comes back too long, merged with a later note of the same pitch")
     fs = [ctx.prog.func(f"{M}:{n}") for n in ("compute_pianoroll", "_make_pianoroll", "compute_pitch_class_pianoroll",
                                               "pianoroll_to_notearray", "slice_notearray_by_time", "get_time_units_from_note_array")]
     G.rule_F4d(ctx, fs, "piano roll", floor=3)
